@@ -148,6 +148,7 @@ def scenarios(tier: str) -> List[Any]:
         for a in SESSIONS:
             for b in SESSIONS:
                 out.append(("splice", engine, a, b, tier))
+        out.append(("h2cup", engine))
         for op in FLOODS:
             out.append(("flood", engine, op, FLOOD_N))
         for odd in ODDITIES:
@@ -454,8 +455,31 @@ def flood_case(params: tuple, case: tuple) -> Tuple[dict, List[tuple]]:
 _GET_NOW = [(b":method", b"GET"), (b":path", b"/now"), (b":scheme", b"https"), (b":authority", b"hypercorn")]
 
 
+# h2c upgrade requests: method x HTTP2-Settings payload x what follows the request x segmentation
+H2CUP_METHODS = (b"GET /u", b"OPTIONS *", b"HEAD /u", b"CONNECT example.com:443", b"DELETE /u?x")
+H2CUP_SETTINGS = (None, b"", b"AAMAAABkAAQAoAAAAAIAAAAA", b"AAAA", b"AAIAAAAC", b"!!!notbase64", b"AAM\xe9", b"A", b"AAQAAAAB" * 40)
+H2CUP_TAILS = ("none", "preface", "preface+get", "garbage")
+
+
+def h2cup_cases() -> List[tuple]:
+    return [(m, st, t, seg) for m in H2CUP_METHODS for st in H2CUP_SETTINGS for t in H2CUP_TAILS for seg in ("whole", "split")]
+
+
+def h2cup_case(params: tuple, case: tuple) -> Tuple[dict, List[tuple]]:
+    m, st, tail, seg = case
+    head = m + b" HTTP/1.1\r\nHost: hypercorn\r\nConnection: Upgrade, HTTP2-Settings\r\nUpgrade: h2c\r\n"
+    if st is not None:
+        head += b"HTTP2-Settings: " + st + b"\r\n"
+    head += b"\r\n"
+    follow = {"none": b"", "preface": h2_preamble(), "preface+get": h2_preamble() + H2_GET, "garbage": b"\x00\x01garbage\xff" * 3}[tail]
+    data = [head + follow] if seg == "whole" else [head, follow]
+    return {"carrier": "h1", "upgrade": "h2c"}, [("data", 0, d) for d in data if d] + [("eof", 0)]
+
+
 def _cases(params: tuple) -> Any:
     kind = params[0]
+    if kind == "h2cup":
+        return h2cup_cases()
     if kind == "flood":
         return [("whole",), ("reads",)]
     if kind == "short":
@@ -469,7 +493,8 @@ def _cases(params: tuple) -> Any:
 
 def _exec_case(params: tuple, case: Any) -> ExecResult:
     kind = params[0]
-    conn, events = {"short": short_case, "mut": mut_case, "splice": splice_case, "flood": flood_case}[kind](params, case)
+    conn, events = {"short": short_case, "mut": mut_case, "splice": splice_case, "flood": flood_case,
+                    "h2cup": h2cup_case}[kind](params, case)
     return run_bytes(params[1], conn, events, (params[:3], case))
 
 
